@@ -58,6 +58,9 @@ Fire(o) ==
     \* sort: take the implementation's order if it is one of the allowed value-sorted permutations
     [] o[1] = "sort" -> IF ImplItems(Steps[l], o[2]) \in SortedPerms(c[o[2]].items)
                         THEN DoSortAny(o[2], ImplItems(Steps[l], o[2])) ELSE DoSort(o[2])
+    [] o[1] = "sortkey" -> DoSortKey(o[2], o[3], o[4])
+    [] o[1] = "extend_iter" -> DoExtend("extend_iter", o[2], o[3], TRUE)
+    [] o[1] = "iadd_iter" -> DoExtend("iadd_iter", o[2], o[3], TRUE)
     [] o[1] = "extend" -> DoExtend("extend", o[2], o[3], o[4])
     [] o[1] = "iadd" -> DoExtend("iadd", o[2], o[3], o[4])
     [] o[1] = "setitem" -> DoSetItem(o[2], o[3], o[4])
